@@ -2,17 +2,17 @@
 ROWS = {
  "C17": ("exploration",
   "exhaustive enumeration of every enum domain + property-based testing (rapid) against documented-name tables and a pinned snapshot",
-  "Every value of every exported enum/identifier stringer is enumerated over its whole (8/16-bit, signed from minimum) domain, tag.ID x IfdType through TagName, CameraModel over the make ranges; oracles: returns without panic, documented value => documented name (tables written in the check), whole relation equals a pinned snapshot with the documented fallback for non-members, parse round trips for image types and XMP namespaces. The enumerated part is exhaustive for the domains listed in the evidence.",
+  "Every value of every exported enum/identifier stringer is enumerated over its whole (8/16-bit, signed from minimum) domain, tag.ID x IfdType through TagName (directory type in the outer loop, and again with the id in the outer loop and the types ascending / descending), CameraModel over the make ranges; oracles: returns without panic, documented value => documented name (tables written in the check), whole relation equals a pinned snapshot with the documented fallback for non-members, parse round trips for image types and XMP namespaces. The enumerated part is exhaustive for the domains listed in the evidence.",
   "Trusted: the documented-name tables in props/c17/tables.go (transcribed from doc comments / ExifTool / TIFF / Exif) and testdata/golden.json (regression snapshot). Unexported stringers are out of scope here."),
 
  "C12": ("exploration",
   "exhaustive enumeration over the signature alphabet + property-based testing (rapid) against a naive reference scan",
-  "Every prefix over {I,M,*,0x00,x} up to length 7 (quick) / 10 (thorough) in front of four header variants is enumerated; random long prefixes around the 32/64/4096/8192-byte buffer boundaries, sprinkled partial signatures, signature-free streams and signatures near the end of the stream through eight reader kinds; oracle: first index found by a naive scan, byte order and first-IFD offset read there, caller's bufio.Reader left at the header, ErrNoExif without a signature.",
+  "Every prefix over {I,M,*,0x00,x} up to length 7 (quick) / 10 (thorough) in front of four header variants is enumerated; random long prefixes around the 32/64/4096/8192-byte buffer boundaries, sprinkled partial signatures, signature-free streams and signatures near the end of the stream through eight reader kinds; oracle: first index found by a naive scan, byte order and first-IFD offset read there, caller's bufio.Reader left at the header, ErrNoExif without a signature; a one-entry block behind up to 3 MiB of filler must also be found by exif2.Parse, DecodeTiff and DecodeHeif.",
   "Trusted: the 20-line reference scan. Streams whose only signature has fewer than 28 following bytes are outside the precondition and not asserted."),
 
  "C16": ("exploration",
   "exhaustive enumeration of 8/16-bit value types + property-based testing (rapid) of round trips and decoder totality + native fuzzing (thorough)",
-  "All values of the 8/16-bit types (incl. all 2^16 ExposureBias encodings) go through MessagePack Marshal/Unmarshal and Encode/Decode (identity, no leftover, Msgsize bound) and text/JSON where offered (exact for documented members, Marshal∘Unmarshal∘Marshal idempotent for every value, receivers pre-set to another value); floats, Dimensions, hashes, FocusDistance and UUIDs (all text forms x case) are generated; every decoder with an error result is run on arbitrary, near-valid and integer-width-boundary (65536, 2^32, 2^64 ...) input under recover.",
+  "All values of the 8/16-bit types (incl. all 2^16 ExposureBias encodings) go through MessagePack Marshal/Unmarshal and Encode/Decode (identity, no leftover, Msgsize bound) and text/JSON where offered (exact for documented members, Marshal∘Unmarshal∘Marshal idempotent for every value, receivers pre-set to another value); floats, Dimensions, hashes, FocusDistance and UUIDs (all text forms x case) are generated; every stream decoder is also fed one byte per Read through an 18-byte reader buffer; every decoder with an error result is run on arbitrary, near-valid and integer-width-boundary (65536, 2^32, 2^64 ...) input under recover.",
   "Trusted: github.com/tinylib/msgp reader/writer, encoding/json. Members are the documented ones listed in the evidence assumptions. One recorded finding (ExposureMode text of undocumented values)."),
 
  "C18": ("exploration",
@@ -22,7 +22,7 @@ ROWS = {
 
  "C19": ("exploration",
   "property-based testing (rapid) against a reference model: float64 DCT-II by definition of an independently computed luminance, threshold / upper-set oracle with a stated margin",
-  "Generated images of the exact size (four pixel formats, seven content classes, origin and sub-image forms with hostile surroundings) are hashed by the primary and alternative implementations; the bits are checked against reference coefficients: above the upper median + tau set, below the median - tau clear, one threshold separates, repeated calls agree, primary vs alternative and sub-image vs origin form differ only within 2 tau of the median; wrong sizes (incl. the shapes the old guard formula let through) and nil must give an error and a zero hash with poisoned pools; distance laws on random triples.",
+  "Generated images of the exact size (four pixel formats, seven content classes, origin and sub-image forms with hostile surroundings) are hashed by the primary and alternative implementations; the bits are checked against reference coefficients: above the upper median + tau set, below the median - tau clear, one threshold separates, repeated calls agree, primary vs alternative and sub-image vs origin form differ only within 2 tau of the median; wrong sizes (incl. the shapes the old guard formula let through) and nil must give an error and a zero hash with poisoned pools; distance laws on random triples and on complement pairs (distance 253..256).",
   "Trusted: internal/imgen (image construction and reference luminance), the margin constants tau = 4e-5 / 2e-4 x ||lum||_1 (fixed, from C18's measured kernel error). Opaque RGBA/NRGBA only; YCbCr 4:4:4 only (other ratios: C20)."),
 
  "C20": ("exploration",
@@ -67,7 +67,7 @@ ROWS = {
 
  "C05": ("exploration",
   "property-based testing (rapid) of generated concurrent plans under the Go race detector; sequential-run differential; deadlock watchdog",
-  "Generated plans (2-64 goroutines x 5-30 mixed calls - decoders, sniffing, perceptual / average / blur hashes - over samples, encoder output with many zone offsets, XMP packets and images; GOMAXPROCS 1-32; cold caches and pools before the concurrent phase; no harness synchronisation between the start barrier and the end of a plan; a cold-start plan first in every process and a quarter of the plans with the reference pass afterwards, so that first-use initialisation happens under overlap) run in a -race binary: a reported data race is a violation (the driver attaches the plan in flight and the report), every call's digest must equal its digest when run alone, and the plan must finish.",
+  "Generated plans (2-64 goroutines x 5-30 mixed calls - decoders, sniffing, perceptual / average / blur hashes - over samples, encoder output with many zone offsets, XMP packets and images; GOMAXPROCS 1-32; cold caches and pools before the concurrent phase; no harness synchronisation between the start barrier and the end of a plan; a cold-start plan first in every process and a quarter of the plans with the reference pass afterwards, so that first-use initialisation happens under overlap; zone-stress plans of 3200 decodes of files differing in their zone strings, hash-stress plans, a third of the plans with the portable kernels selected) run in a -race binary: a reported data race is a violation (the driver attaches the plan in flight and the report), every call's digest must equal its digest when run alone, and the plan must finish.",
   "Trusted: the Go race detector and scheduler. The harness does not own the interleaving: data races are detected independently of the schedule, atomicity violations without a data race only if the scheduler produces them (stated limit of the technique, DESIGN section 4 C05)."),
 }
 NOT_APPLICABLE = {}
